@@ -16,6 +16,7 @@ def convert(beh, rng, name, opts):
         elif act == 'ClientCall': steps.append(dict(a='call', c=a[0]))
         elif act == 'HandlerRet': steps.append(dict(a='hret', c=a[0]))
         elif act == 'ClientClose': steps.append(dict(a='clientclose', c=a[0]))
+        elif act == 'ConnError': steps.append(dict(a='connerr', c=a[0]))
         elif act == 'WatcherStop': steps.append(dict(a='watcherstop', c=a[0]))
         elif act in ('ServerExit', 'LoopReturn'): pass      # happen by themselves
         else: raise C.ToolError('unknown LoopImpl action ' + act)
@@ -36,6 +37,8 @@ def directed(rng):
         add('closing-while-running-%s' % cc, cc, [A, A, ns(1), ns(2), asg(1), asg(2), D, dict(a='call', c=1), dict(a='acceptfail', kind='closing'), D, dict(a='clientclose', c=2), D, dict(a='hret', c=1), dict(a='clientclose', c=1), D])
         add('cancel-%s' % cc, cc, [A, A, ns(1), asg(1), ns(2), asg(2), D, dict(a='call', c=1), dict(a='call', c=2), D, dict(a='ctxcancel'), D, dict(a='hret', c=1), D, dict(a='hret', c=2), D, dict(a='acceptfail', kind='other'), D])
         add('cancel-before-start-%s' % cc, cc, [A, ns(1), dict(a='ctxcancel'), asg(1), D, dict(a='acceptfail', kind='closing'), D])
+        add('connerr-%s' % cc, cc, [A, A, ns(1), ns(2), asg(1), asg(2), D, dict(a='call', c=1), D, dict(a='connerr', c=1), D, dict(a='hret', c=1), D, dict(a='connerr', c=2), D,
+                                    dict(a='acceptfail', kind='closing'), D])
         add('three-%s' % cc, cc, [A, A, A, ns(1), ns(2), ns(3), asg(2, False), asg(1), asg(3), D, dict(a='clientclose', c=3), dict(a='call', c=1), D, dict(a='acceptfail', kind='other'), dict(a='hret', c=1), dict(a='clientclose', c=1), D])
     return out
 
